@@ -406,11 +406,20 @@ class CanLoadCacheLin(_BaseCanLoad):
         ]
 
 
+def hit_entry(c, inp):
+    """The lookup of ``inp`` in the discipline's cache finds the entry (whatever it holds)."""
+    s = c.old.self.cache
+    i = s._SimpleCache__inputs
+    return z3.And(i.n != 0, matches_c(cont(inp, c.old_sym("arr", ValS)), cont(i, c.old_sym("arr", ValS)), s._tolerance))
+
+
 def exec_spec(c, has0):
     """Discipline.execute / BaseDiscipline.execute on a Discipline whose flag is ``has0`` when the lookup is made."""
     p = Prepared(c.old.input_data)
     hit = hit_with_outputs(c, p)
-    _, o0, j0 = sc(_Cview(c, p))
+    hit_e = hit_entry(c, p)
+    i0, o0, j0 = sc(_Cview(c, p))
+    i1, _, _ = sc(_Cview(c, p), "new")
     h0, h1 = c.old_sym("arr", ValS), c.new_sym("arr", ValS)
     r = c.result
     s0, s1 = c.old.self, c.new.self
@@ -433,6 +442,10 @@ def exec_spec(c, has0):
         ("self-kept", self_kept(c)),
         ("local-data-allocated", allocated(s1.io._IO__data, c.new_ctr)),
         ghost_stable(c)[0],
+        ("hit:inputs-content", z3.Implies(hit, cont(i1, h1) == cont(i0, h0))),
+        # (for a caller passing data that are already prepared: the two contents as one equality)
+        ("prepared-input-content", z3.Implies(same_dict_obj(p, c.old.input_data), cont(p, h0) == cont(c.old.input_data, h0))),
+        ("prepared-input-lookup", z3.Implies(same_dict_obj(p, c.old.input_data), z3.And(hit == hit_with_outputs(c, c.old.input_data), hit_e == hit_entry(c, c.old.input_data)))),
     ]
     # miss: the pair stored is (the prepared inputs as they were at the call, the outputs in the returned data), with the Jacobian the run provided
     out += [(f"miss:{l}", z3.Implies(z3.Not(hit), f)) for l, f in stored_after_lin(c, p, h0, r, h1, has_after, s1.jac, h1) if l not in ("cache-wf", "tolerance-kept")]
@@ -551,7 +564,7 @@ class PrivateComputeJacobian(_Lin):
 def covers(J, X, O, tag="cv"):
     """Every requested output has a row holding every requested input."""
     o, x = S(f"o!{tag}"), S(f"x!{tag}")
-    return FA([o, x], z3.Implies(z3.And(inl(O, o), inl(X, x)), has(J, o, x)))
+    return FA([o, x], z3.Implies(z3.And(inl(O, o), inl(X, x)), has(J, o, x)), patterns=[rowm(J, o)[x]])
 
 
 def real_parts(J1, J0, h1, h0, tag="rp"):
@@ -675,7 +688,7 @@ class Linearize(_Lin):
                 ("local-data-allocated", allocated(c.old.self.io._IO__data, c.old_ctr))]
 
     def ensures(self, c):
-        p = Prepared(c.old.input_data)
+        p = c.locals["input_data"]  # the prepared input data (the local is rebound by the first statement)
         X, O = c.locals["input_names"], c.locals["output_names"]
         all_, ex = c.old.compute_all_jacobians, c.old.execute
         cc = _Cview(c, p)
@@ -702,6 +715,7 @@ class Linearize(_Lin):
         out = diff_io_spec(s0, X, O, all_)
         out = [(f"requested:{l}", f) for l, f in out]
         out += [
+            ("the-lookups-use-the-prepared-input-data", same_dict_obj(p, Prepared(c.old.input_data))),
             ("returns-self.jac", same_jac(R, s1.jac)),
             # (d) nothing requested: the cached Jacobian of the lookup (possibly none), nothing computed, nothing run, cache untouched
             ("nothing-requested:returns-the-cached-jacobian", z3.Implies(z3.And(early, hit_i), jac_is_flat(R, j0, h1, h0))),
@@ -713,7 +727,8 @@ class Linearize(_Lin):
             ("hit-with-usable-jacobian:returns-the-stored-jacobian", z3.Implies(z3.And(main, hit_o, usable), stored_real)),
             ("hit-with-usable-jacobian:cache-unchanged", z3.Implies(z3.And(main, hit_o, usable), cache_same(c))),
             # (b) otherwise computed exactly once (the body runs iff the lookup returned no outputs)
-            ("hit-without-usable-jacobian:computed-once", z3.Implies(z3.And(main, hit_o, z3.Not(usable)), z3.And(computed_, runs1 == runs0))),
+            ("hit-without-jacobian:computed-once", z3.Implies(z3.And(main, hit_o, j0.n == 0), z3.And(computed_, runs1 == runs0))),
+            ("hit-with-jacobian-not-covering-the-request:computed-once", z3.Implies(z3.And(main, hit_o, j0.n != 0, z3.Not(covers_flat(j0, X, O))), z3.And(computed_, runs1 == runs0))),
             ("miss:computed-once-unless-the-run-provides-the-jacobian", z3.Implies(z3.And(main, z3.Not(hit_o), z3.Not(sets)), z3.And(computed_, runs1 == runs0 + 1))),
             ("miss:run-once", z3.Implies(z3.And(main, z3.Not(hit_o)), runs1 == runs0 + 1)),
             ("at-most-one-computation", z3.And(n0 <= n1, n1 <= n0 + 1)),
